@@ -374,8 +374,70 @@ pub fn dispatch_sub(sr: &SubRun, slice: (u64, u64), seed: u64, res: &mut WorkerR
     }
 }
 
+/// One very large log record (a range removal over keys whose encodings add up to `total` bytes), then a clean restart
+/// before any checkpoint covers it, then more operations and another restart (C01/C02/C20 for records beyond 1 MiB).
+pub fn big_record_case(total: usize, cfg: &Cfg, res: &mut WorkerResult) -> Vec<Violation> {
+    let mut vs = Vec::new();
+    let dir = util::fresh_dir("bigrec");
+    let klen = 9000usize;
+    let nkeys = total / klen + 1;
+    let key = |i: usize| format!("{:0>width$}", i, width = klen);
+    let mk = |oracle: &str, detail: String| {
+        let mut v = Violation::new(&["C02", "C01"], oracle, format!("[{}] {nkeys} keys of {klen} bytes sharing one blob, remove_range over all but the last 3 (one log record of about {} bytes): {detail}", cfg.show(), (nkeys - 3) * (klen + 4)));
+        v.sig = format!("{oracle}|big-record");
+        v.replay = json!({"engine": "seq", "kind": "big-record", "total": total, "cfg": cfg});
+        v
+    };
+    let r = util::catch(|| -> Result<(), String> {
+        let cas = real::open_cas::<String>(&dir, &cfg.config())?;
+        for i in 0..nkeys {
+            real::put_chunks(&cas, key(i), &[b"xx"], true)?;
+        }
+        cas.checkpoint().map_err(|e| util::err_chain(&e))?;
+        let n = cas.remove_range(..key(nkeys - 3)).map_err(|e| util::err_chain(&e))?;
+        if n != nkeys - 3 {
+            return Err(format!("remove_range returned {n}, expected {}", nkeys - 3));
+        }
+        drop(cas);
+        for round in 0..2 {
+            let cas = real::open_cas::<String>(&dir, &cfg.config()).map_err(|e| format!("restart {round} failed: {e}"))?;
+            let len = cas.read_index_state().len();
+            if len != 3 + round {
+                return Err(format!("{len} keys after restart {round}, expected {}", 3 + round));
+            }
+            real::put_chunks(&cas, format!("after{round}"), &[b"yyy"], true)?;
+        }
+        let cas = real::open_cas::<String>(&dir, &cfg.config()).map_err(|e| format!("final restart failed: {e}"))?;
+        let keys: Vec<String> = cas.read_index_state().iter().map(|(k, _)| k.clone()).collect();
+        if keys.len() != 5 || !keys.contains(&"after0".to_string()) || !keys.contains(&"after1".to_string()) {
+            return Err(format!("after the final restart the store holds {} keys (operations issued after a reopen must survive later reopens)", keys.len()));
+        }
+        Ok(())
+    });
+    match r {
+        Ok(Ok(())) => {}
+        Ok(Err(e)) => vs.push(mk("big-record-restart", e)),
+        Err(p) => vs.push(mk("big-record-panic", p)),
+    }
+    res.count("sequences", 1);
+    res.count("steps", nkeys as u64 + 6);
+    util::rm_rf(&dir);
+    vs
+}
+
 pub fn run(tier: &str, slice: (u64, u64), seed: u64, prop: &str) -> WorkerResult {
     let mut res = WorkerResult::new("seq");
+    if matches!(prop, "C01" | "C02" | "C20" | "") {
+        let sizes: Vec<usize> = if tier == "quick" { vec![70_000, 1_300_000] } else { vec![70_000, 300_000, 1_300_000, 5_000_000, 17_000_000] };
+        if let Some(&t) = sizes.get(slice.0 as usize) {
+            for v in big_record_case(t, &Cfg { n: 10_000, async_mode: false }, &mut res) {
+                res.violate(v);
+            }
+        }
+        if slice.0 == 0 {
+            res.completed.push(format!("one log record of about {sizes:?} bytes (range removal over 9000-byte keys), clean restarts before and after further puts"));
+        }
+    }
     for sr in plan(tier, prop) {
         dispatch_sub(&sr, slice, seed, &mut res);
     }
@@ -384,6 +446,10 @@ pub fn run(tier: &str, slice: (u64, u64), seed: u64, prop: &str) -> WorkerResult
 
 pub fn replay(case: &Value) -> Vec<Violation> {
     let cfg: Cfg = serde_json::from_value(case["cfg"].clone()).expect("cfg");
+    if case["kind"].as_str() == Some("big-record") {
+        let mut res = WorkerResult::new("seq");
+        return big_record_case(case["total"].as_u64().unwrap() as usize, &cfg, &mut res);
+    }
     let universe: Vec<u8> = serde_json::from_value(case["universe"].clone()).expect("universe");
     let opsq: Vec<Op> = serde_json::from_value(case["ops"].clone()).expect("ops");
     let mut res = WorkerResult::new("seq");
